@@ -135,6 +135,8 @@ def _sum(it, a, kw):
         rec = it.run.registry["cumsum"].pop()
         it.run.registry.setdefault("sum", []).append(rec)
         return c.at(to_z3(x.length) - 1)
+    if isinstance(x, Opaque) and getattr(it.run, "uninterp_libs", False):
+        return Opaque("lib:np.sum", list(a) + [(k, v) for k, v in sorted(kw.items())])
     raise Unsupported("sum")
 
 
@@ -183,6 +185,11 @@ def subscript(it, o, idx):
 
 def store(it, o, idx, v):
     run = it.run
+    if isinstance(o, Opaque) and getattr(run, "uninterp_libs", False) and isinstance(idx, (str, int)):
+        if not hasattr(o, "stores"):
+            o.stores = {}
+        o.stores[idx] = v          # functional update of an uninterpreted record: o[idx := v]
+        return
     if isinstance(o, SymSeq) and o.kind == "array":
         if isinstance(idx, slice) and idx == slice(None, None, None):
             if not LM.is_arr(v):
